@@ -11,6 +11,8 @@ that skips k = 0 consistently).  The structure factor's own units are decided as
 
 from __future__ import annotations
 
+import ast
+
 from ..core import Ctx
 from ..rules import spectrum
 
@@ -40,6 +42,14 @@ def check(ctx: Ctx):
             ctx.findings.append(f)
     ctx.functions |= sub2.functions
     spectrum.check_accumulator_dtype(ctx, ("droplets.image_analysis.get_structure_factor", "droplets.image_analysis.get_length_scale"))
+    # the droplet count passes the size filter of locate_droplets: its test is the exact comparison radius <= min_radius (an
+    # absolute tolerance such as np.isclose's 1e-8 removes every droplet once lengths are measured in small units)
+    from ..rules import collections as _col17
+
+    _col17.check_safe_removal(ctx, "droplets.emulsions.Emulsion.remove_small", "radius", (ast.LtE,), "radius <= min_radius", param="min_radius")
+    spectrum.check_mode_order_in_length_scale(ctx)
+    ctx.expect("PERMINV", 1)
+    ctx.expect("REMOVE", 1)
     ctx.expect("DTYPE", 2)
     ctx.expect("FRAME", 4)
     ctx.expect("MERGE", 6)
